@@ -52,7 +52,7 @@ func truncatorOf(fn *ssa.Function) (*ssa.Function, *ssa.Call) {
 			return
 		}
 		ps := f.Signature.Params()
-		if ps.Len() == 3 && strings.HasPrefix(f.Signature.Results().At(0).Type().String(), "[][]") {
+		if ps.Len() == 3 && f.Signature.Results().Len() > 0 && strings.HasPrefix(f.Signature.Results().At(0).Type().String(), "[][]") {
 			tf = f
 			tc, _ = ci.(*ssa.Call)
 		}
@@ -353,6 +353,14 @@ func c08(c *Ctx) {
 			if f != nil && core.InModule(f) && (f.Signature.Results().Len() == 2 || f.Signature.Results().Len() == 1) && framesForVersion(f, lebEncode32) {
 				a := ci.Common().Args
 				data := a[len(a)-1]
+				// handed to the goroutine as an argument: the parameter's actual is storage.Get's result
+				if pa := core.ParamOf(data); pa != nil && pa.Parent() == cf {
+					for pi, q := range cf.Params {
+						if q == pa && pi < len(goi.Call.Args) && isResultThroughCell(goi.Call.Args[pi], getCall) {
+							okEnc = true
+						}
+					}
+				}
 				// the captured content cell (a free variable of the closure bound to the cell holding storage.Get's result)
 				if u, ok := data.(*ssa.UnOp); ok {
 					if fv, ok := u.X.(*ssa.FreeVar); ok {
@@ -733,6 +741,7 @@ func c08(c *Ctx) {
 		r.Check(okDial, "R4.asking-side", dname+" dials-announced-id", p.Pos(decoder.Pos()), "dials the connection id decoded from the reply", "the asker dials a connection id other than the one in the reply")
 		r.Check(okRet, "R4.asking-side", dname+" returns-decoded-stream", p.Pos(decoder.Pos()), "returns the frame decoder's result for the bytes read", "the asker returns stream bytes without passing them through the version-dependent frame decoder")
 	}
+	errorsExamined(c, "R5.errors-examined", "FINDCONTENT paths", []string{"portalwire"}, ".handleFindContent", ".processContent", ".findContent", ".encodeUtpContent", ".decodeUtpContent", ".truncateNodes", ".findNodesCloseToContent")
 }
 
 func bothFromFreeVar(a, b ssa.Value) bool {
@@ -977,7 +986,7 @@ func c11(c *Ctx) {
 							return false
 						}
 						fromAsker := false
-						if pa, ok := cc.Call.Args[0].(*ssa.Parameter); ok && pa.Parent() == coll {
+						if pa := core.ParamOf(cc.Call.Args[0]); pa != nil && pa.Parent() == coll {
 							fromAsker = true
 						}
 						if inl {
@@ -1062,8 +1071,15 @@ func c11(c *Ctx) {
 				}
 			}
 		} else {
-			lim, isC = core.ConstInt(collCall.Call.Args[len(collCall.Call.Args)-1])
+			limArg := collCall.Call.Args[len(collCall.Call.Args)-1]
+			lim, isC = core.ConstInt(limArg)
 			limPos = p.Pos(collCall.Pos())
+			if !isC {
+				// the limit as a setting: every value it can take is within 1..32
+				if rg := p.RangeOf(limArg, collCall.Block()); rg.HasHi && rg.Hi <= 32 && rg.HasLo && rg.Lo >= 1 {
+					lim, isC = 32, true
+				}
+			}
 		}
 		r.Check(isC && lim == 32, "R1.count-limit", hname+" limit", limPos, "at most 32 records are collected", fmt.Sprintf("the record limit passed is %d, the property states 32", lim))
 		// SSZ max of Nodes.Enrs
@@ -1092,7 +1108,7 @@ func c11(c *Ctx) {
 			for i := range b.Succs {
 				for _, f := range core.EdgeFacts(b, i) {
 					if core.CmpFact(f, func(op token.Token, x, y ssa.Value) bool {
-						return (op == token.GEQ || op == token.EQL) && y == limP && core.IsLenOf(x, func(ssa.Value) bool { return true })
+						return (op == token.GEQ || op == token.EQL) && (y == limP || (core.ParamOf(y) != nil && ssa.Value(core.ParamOf(y)) == limP)) && core.IsLenOf(x, func(ssa.Value) bool { return true })
 					}) {
 						if _, isRet := b.Succs[i].Instrs[len(b.Succs[i].Instrs)-1].(*ssa.Return); isRet {
 							stop = true
@@ -1274,6 +1290,7 @@ func c11(c *Ctx) {
 			r.Check(func() bool { _, ok := call.Call.Args[1].(*ssa.Parameter); return ok }(), "R2.only-verified-appended", fname+" sender-operand", p.Pos(call.Pos()), "records are verified against the node that sent them", "records are verified against something other than the responding node")
 		}
 	}
+	errorsExamined(c, "R3.errors-examined", "FINDNODES paths", []string{"portalwire"}, ".handleFindNodes", ".processNodes", ".filterNodes", ".verifyResponseNode", ".collectTableNodes", ".truncateNodes", ".findNodes")
 }
 
 // loadsCellOf: v is a load of a local cell that stores call's result #0 (variables shared with closures or declared outside the loop).
